@@ -570,6 +570,107 @@ func check(r *ev.Run, w *irworld.World, f *fix, am []auth, c ccase, nonce uint32
 	}
 }
 
+// ---------- bundled payloads: createV2 + putEACL in one request ----------
+
+var (
+	bCID    = []string{"new-container", "zero", "foreign-owners-container", "requesters-other-container", "non-existent"}
+	bSigner = []string{"requester", "foreign-owner", "stranger"}
+	bACL    = []string{"extendable", "final"}
+	bTable  = []string{"plain", "system-role"}
+	bCreate = []string{"owner-signed", "bad-signature"}
+)
+
+// bcase: a createV2 request by the owner of the new container that carries an eACL table as second call.
+type bcase struct{ CID, Signer, ACL, Table, Create int }
+
+func (c bcase) String() string {
+	return fmt.Sprintf("bundled-eacl: table-cid=%s table-signer=%s new-container-acl=%s table=%s creation=%s", bCID[c.CID], bSigner[c.Signer], bACL[c.ACL], bTable[c.Table], bCreate[c.Create])
+}
+
+func checkBundle(r *ev.Run, w *irworld.World, f *fix, c bcase, nonce uint32) {
+	basic := acl.PublicRWExtended
+	if bACL[c.ACL] == "final" {
+		basic = acl.PublicRW
+	}
+	newCnr := irworld.Container(f.owner.ID, "bundled-new", "REP 1", basic, "Name", "bundled")
+	newID := irworld.CID(newCnr)
+	cb := newCnr.Marshal()
+	csig := f.owner.SignRFC6979(cb)
+	if bCreate[c.Create] == "bad-signature" {
+		csig[9] ^= 0x10
+	}
+	var tcid cid.ID
+	switch bCID[c.CID] {
+	case "new-container":
+		tcid = newID
+	case "foreign-owners-container":
+		tcid = f.foreignID
+	case "requesters-other-container":
+		tcid = f.extID
+	case "non-existent":
+		tcid = irworld.CID(irworld.Container(f.other.ID, "never-stored", "REP 1", acl.PublicRWExtended, "Name", "ghost"))
+	}
+	recs := []eacl.Record{eacl.ConstructRecord(eacl.ActionDeny, eacl.OperationPut, []eacl.Target{eacl.NewTargetByRole(eacl.RoleOthers)})}
+	if bTable[c.Table] == "system-role" {
+		recs = []eacl.Record{eacl.ConstructRecord(eacl.ActionAllow, eacl.OperationGet, []eacl.Target{eacl.NewTargetByRole(eacl.RoleSystem)})}
+	}
+	var tb []byte
+	if bCID[c.CID] == "zero" {
+		tb = eacl.ConstructTable(recs).Marshal()
+	} else {
+		tb = eacl.NewTableForContainer(tcid, recs).Marshal()
+	}
+	signer := map[string]irworld.User{"requester": f.owner, "foreign-owner": f.other, "stranger": irworld.NewUser("third")}[bSigner[c.Signer]]
+	script := irworld.Script(
+		irworld.CallSpec{Contract: w.Container, Method: "createV2", Args: []any{cntcli.VerifContainerToStackItem(newCnr), csig, f.owner.PubBytes(), []byte{}}},
+		irworld.CallSpec{Contract: w.Container, Method: "putEACL", Args: []any{tb, signer.SignRFC6979(tb), signer.PubBytes(), []byte{}}})
+	nr := w.Request(script, irworld.NROpt{Nonce: nonce})
+	w.Notary(nr)
+	approved := false
+	for _, call := range w.TakeCalls() {
+		if call.Method == "NotarySignAndInvokeTX" && call.TxHash == nr.MainTransaction.Hash().StringLE() {
+			approved = true
+		}
+	}
+	r.Eval(1)
+	// reference: every payload must be authorised by the owner of the container it affects. The table affects the
+	// container whose id it carries; the only container the creator of a NEW container may target here is that new one.
+	var missing []string
+	if bCreate[c.Create] != "owner-signed" {
+		missing = append(missing, "creation-not-authorised")
+	}
+	switch bCID[c.CID] {
+	case "new-container":
+		if bSigner[c.Signer] != "requester" {
+			missing = append(missing, "table-not-signed-by-owner-of-affected-container")
+		}
+	case "zero":
+		missing = append(missing, "table-names-no-container")
+	default:
+		missing = append(missing, "table-affects-another-container:"+bCID[c.CID])
+	}
+	if bACL[c.ACL] != "extendable" || bTable[c.Table] != "plain" {
+		missing = append(missing, "eacl-not-allowed")
+	}
+	cls := fmt.Sprintf("bundled-eacl/approved=%v/missing=%s", approved, strings.Join(missing, "+"))
+	clsMu.Lock()
+	classes[cls]++
+	clsMu.Unlock()
+	if approved || len(missing) == 1 {
+		r.Nontrivial(c.String())
+	}
+	if approved && len(missing) > 0 {
+		r.Violation("approved-bundled-eacl-without/"+strings.Join(missing, "+")+"/signer="+bSigner[c.Signer],
+			"createV2 with a bundled eACL table was approved although "+strings.Join(missing, ", ")+": "+c.String(), c)
+	}
+	if !approved && len(missing) == 0 {
+		r.Violation("refused-fully-authorised-bundled-eacl", c.String(), c)
+	}
+	if approved {
+		r.Sample(map[string]any{"bundled": c.String(), "approved": true})
+	}
+}
+
 func newWorld(label string, allowEC bool) (*irworld.World, *fix, error) {
 	w, err := irworld.New(label, irworld.Options{AllowEC: allowEC, NoStart: true}, nil)
 	if err != nil {
@@ -597,6 +698,20 @@ func main() {
 	r := ev.Start("C37", ev.Exploration)
 	am := authMenu()
 	if r.Replay != "" {
+		var raw map[string]any
+		r.LoadReplay(&raw)
+		if _, ok := raw["Signer"]; ok {
+			var c bcase
+			r.LoadReplay(&c)
+			w, f, err := newWorld("replay", false)
+			if err != nil {
+				r.Fatal("%v", err)
+			}
+			checkBundle(r, w, f, c, 1)
+			fmt.Println("replayed", c)
+			irworld.CloseAll()
+			r.Finish()
+		}
 		var c ccase
 		r.LoadReplay(&c)
 		w, f, err := newWorld("replay", c.AllowEC)
@@ -646,6 +761,24 @@ func main() {
 			w.Close()
 		}
 	})
+	// bundled secondary payload
+	{
+		w, f, err := newWorld("c37/bundle", false)
+		if err != nil {
+			r.Fatal("world: %v", err)
+		}
+		n := uint32(0)
+		enumx.Product([]int{len(bCID), len(bSigner), len(bACL), len(bTable), len(bCreate)}, func(i []int) bool {
+			n++
+			checkBundle(r, w, f, bcase{i[0], i[1], i[2], i[3], i[4]}, n)
+			return true
+		})
+		w.Close()
+		r.Set("bundled_eacl_cases", int(n))
+		if classes["bundled-eacl/approved=true/missing="] == 0 {
+			r.Fatal("vacuous: the fully authorised createV2+putEACL bundle was not approved")
+		}
+	}
 	var cl []string
 	approvedClasses := 0
 	for k, n := range classes {
@@ -662,9 +795,10 @@ func main() {
 	if approvedClasses < opCount {
 		r.Fatal("vacuous: only %d approved classes", approvedClasses)
 	}
-	r.Rule("cases = operation{create, createV2, remove, legacy delete, putEACL, setAttribute, removeAttribute} x authorisation{4 direct-signature variants; V1 token: issuer{owner,other} x token signature{ok,forged} x verb{5} x binding{unbound,this,other} x lifetime{ok, exp=e-1, exp=e, nbf=e+1, iat=e+1} x request signature{session key, other key}; V2 token: issuer x signature x verbs{the op's, another, both} x context container{this, other, wildcard} x lifetime (seconds around chain time); V2 delegation chains of 2 and 3 genuinely signed tokens: all 9+27 placements of {owner, stranger, third party} as root/intermediate/presented-token issuer x verb{the op's, another}} x operation variant{create: 6 policies x 5 attribute sets (x allowEC for EC policies); putEACL: 3 tables x 2 basic ACLs; attributes: 3 names}; non-trivial = approved case or case refused with exactly one missing condition")
+	r.Rule("cases = operation{create, createV2, remove, legacy delete, putEACL, setAttribute, removeAttribute} x authorisation{4 direct-signature variants; V1 token: issuer{owner,other} x token signature{ok,forged} x verb{5} x binding{unbound,this,other} x lifetime{ok, exp=e-1, exp=e, nbf=e+1, iat=e+1} x request signature{session key, other key}; V2 token: issuer x signature x verbs{the op's, another, both} x context container{this, other, wildcard} x lifetime (seconds around chain time); V2 delegation chains of 2 and 3 genuinely signed tokens: all 9+27 placements of {owner, stranger, third party} as root/intermediate/presented-token issuer x verb{the op's, another}} x operation variant{create: 6 policies x 5 attribute sets (x allowEC for EC policies); putEACL: 3 tables x 2 basic ACLs; attributes: 3 names}; non-trivial = approved case or case refused with exactly one missing condition. Bundled payloads: createV2 by the new container's owner carrying an eACL table as second call x table container id{the new container, zero, a stored container of another owner, another stored container of the requester, non-existent} x table signer{requester, the foreign owner, stranger} x new container basic ACL{extendable, final} x table{plain, system role} x creation signature{genuine, corrupted}")
 	r.Exhaustive(exhaustive)
-	r.Assume("owners and token issuers are ECDSA users (N3 contract-account witnesses are never confirmed by the modelled chain)",
+	r.Assume("bundled eACL: the table affects the container whose id it carries; a creation request may only carry a table for the container being created, signed by its owner (judged in both directions for the fully authorised bundle)",
+		"owners and token issuers are ECDSA users (N3 contract-account witnesses are never confirmed by the modelled chain)",
 		"oracle is one-directional (approved => authorised, valid policy, permitted system attributes, eACL allowed), as the property states 'only if'",
 		"'only permitted system attributes may be present' is applied to the created container; names given to setAttribute/removeAttribute are enumerated but only authorisation is judged for them",
 		"creation with a token bound to / naming a container id is executed but not judged (the text does not say what 'that container' is before creation)",
